@@ -233,6 +233,10 @@ func (c *pChunker) start(ctx context.Context) {
 		// If the next worker has stopped and has no more chunks in its bucket,
 		// we want to skip that and try to sync with the one after
 		if c.next != nil && !c.next.active() && len(c.next.results) == 0 {
+			// The skipped worker may have run into the end of the stream without
+			// ever lining up with anyone. Its chunks are void, so it must not make
+			// the main routine stop before the workers that follow it.
+			c.next.eof = false
 			c.next = c.next.next
 		}
 	}
